@@ -3,6 +3,7 @@
    the model (RIO.HtmlTok through RIO.C16Run). *)
 Require Import Coq.Strings.String Coq.Strings.Ascii.
 Require Import RIO.Base RIO.TokMonad RIO.HtmlTok RIO.C16Run RIO.TokLogic RIO.HtmlTokProofs.
+Require Import RIO.TablesTie RIOGen.ExtTables.
 
 Definition b (s : String.string) : list N := map N_of_ascii (list_ascii_of_string s).
 
@@ -178,6 +179,16 @@ Theorem C16_accessors :
     Forall accessors_ok toks /\ f_end fin <> 1%N.
 Proof. exact accessors. Qed.
 
+
+(* ---- TIE TO THE SOURCE (translator): the three places where src/html/mod.rs names the raw-text elements are lifted on
+   every run: the context list of Tokenizer::new_fragment, the per-letter dispatch of read_start_tag and the
+   text_is_raw exclusions of next(); they are the tables the model uses. *)
+Theorem C16_tables_fragment_raw_text : forall name : str, mem_str name ext_fragment_raw_text = mem_str name raw_text_elements.
+Proof. apply same_names_mem. vm_compute. reflexivity. Qed.
+
+Theorem C16_tables_start_tag_raw_text : ext_start_tag_raw_text = model_start_tag_raw_text /\ ext_text_not_raw = model_text_not_raw.
+Proof. split; vm_compute; reflexivity. Qed.
+
 Print Assumptions C16_lossless.
 Print Assumptions C16_stable.
 Print Assumptions C16_total.
@@ -185,3 +196,5 @@ Print Assumptions C16_next_total.
 Print Assumptions C16_count.
 Print Assumptions C16_utf8_cut.
 Print Assumptions C16_accessors.
+Print Assumptions C16_tables_fragment_raw_text.
+Print Assumptions C16_tables_start_tag_raw_text.
